@@ -229,6 +229,9 @@ func (res *Response) writeChunk(conn net.Conn, data []byte, l int) (int, error) 
 	if totalSize < maxPacketSize {
 		if pbuf == nil {
 			pbuf = mempool.Malloc(totalSize)
+			// Malloc returns a buffer of that length: start empty, or the
+			// chunk is preceded by stale bytes of a pooled buffer.
+			*pbuf = (*pbuf)[0:0]
 		}
 		pbuf = mempool.AppendString(pbuf, lenStr)
 		pbuf = mempool.AppendString(pbuf, "\r\n")
